@@ -129,6 +129,32 @@ theorem C05_rect_corners (c s : Rat) (t ctr : Pt) (l w cθ sθ : Rat) :
     rectCorners l w (tr c s t ctr) (rot c s ⟨cθ, sθ⟩).x (rot c s ⟨cθ, sθ⟩).y
       = (rectCorners l w ctr cθ sθ).map (tr c s t) := rectCorners_tr c s t ctr l w cθ sθ
 
+/-- Occupancy of a polygon-shaped obstacle (`occupancy_shape_from_state` → `Polygon.rotate_translate_local`: rotate the body
+    polygon about its centroid `o` by the state's heading, translate to the state's position).  Moving the state (position by
+    `tr`, heading by the rotation `(c, s)`) and placing again gives the rigid image of the old occupancy vertex plus the offset
+    `R o - o`: it IS the rigid image exactly when the centroid is a fixed point of the rotation — for every angle: when the
+    centroid is the local origin (the convention for obstacle shapes).  A placement that rotates about any other point `b` of
+    the body (e.g. the bounding-box centre) is off by `R b - b` for every non-trivial rotation. -/
+theorem C05_occupancy_placement (c s : Rat) (t o pos v : Pt) (cθ sθ : Rat) :
+    tr c s t (placeAbout cθ sθ o pos v)
+      = ⟨(placeAbout (rot c s ⟨cθ, sθ⟩).x (rot c s ⟨cθ, sθ⟩).y o (tr c s t pos) v).x + ((rot c s o).x - o.x),
+         (placeAbout (rot c s ⟨cθ, sθ⟩).x (rot c s ⟨cθ, sθ⟩).y o (tr c s t pos) v).y + ((rot c s o).y - o.y)⟩
+    ∧ tr c s t (placeAbout cθ sθ ⟨0, 0⟩ pos v)
+        = placeAbout (rot c s ⟨cθ, sθ⟩).x (rot c s ⟨cθ, sθ⟩).y ⟨0, 0⟩ (tr c s t pos) v := by
+  constructor <;> (apply Pt.ext' <;> simp only [tr, rot, placeAbout] <;> ring)
+
+/-- the whole occupancy polygon (any number of vertices, constructor included): for a body polygon with its centroid at the
+    local origin the occupancy at the moved state is the moved occupancy. -/
+theorem C05_occupancy_polygon_moved (c s : Rat) (hk : 0 < c ^ 2 + s ^ 2) (t pos : Pt) (cθ sθ : Rat) (ring : List Pt) :
+    placePolygon (rot c s ⟨cθ, sθ⟩).x (rot c s ⟨cθ, sθ⟩).y ⟨0, 0⟩ (tr c s t pos) ring
+      = (placePolygon cθ sθ ⟨0, 0⟩ pos ring).map (List.map (tr c s t)) := by
+  unfold placePolygon
+  rw [← polyMk_map c s t hk, List.map_map]
+  congr 1
+  apply List.map_congr_left
+  intro v _
+  exact ((C05_occupancy_placement c s t ⟨0, 0⟩ pos v cθ sθ).2).symm
+
 /-! ### orientations -/
 
 /-- `make_valid_orientation(θ + a)` for a valid orientation `θ` and a valid angle `a`, computed exactly: it IS `θ + a` when
@@ -462,6 +488,9 @@ example : exMo.wr 6 = 7 := by decide +kernel
 example : makeValid 7 (6 + 2) = 1 := by decide +kernel
 example : addAngle 7 ⟨5, 6⟩ 3 = .ok ⟨1, 2⟩ := by decide +kernel
 example : tr (3 / 5) (4 / 5) ⟨2, -1⟩ ⟨3, 1⟩ = ⟨3, 4⟩ := by decide +kernel
+-- a triangle body with centroid (0, 0) and bounding-box centre (1/2, 0), heading a quarter turn, placed at (5, 5)
+example : placePolygon 0 1 ⟨0, 0⟩ ⟨5, 5⟩ [⟨2, 0⟩, ⟨-1, -3 / 2⟩, ⟨-1, 3 / 2⟩, ⟨2, 0⟩]
+    = .ok [⟨5, 7⟩, ⟨13 / 2, 4⟩, ⟨7 / 2, 4⟩, ⟨5, 7⟩] := by decide +kernel
 example : (State.move exMo ⟨.other, .none, none⟩).toOption.isNone = true := by
   simp [State.move, guard, exMo, Pos.move, Except.toOption]; decide +kernel
 
